@@ -15,7 +15,7 @@ theorem assembleFrom_c_length (as : List AssetProblem) (off : Nat) :
   | nil => simp [assembleFrom]
   | cons a rest ih => simp [assembleFrom, ih, AssetProblem.n]
 
-theorem assembleFrom_n (as : List AssetProblem) (off : Nat) :
+theorem wf_assembleFrom_n (as : List AssetProblem) (off : Nat) :
     (assembleFrom off as).n = (as.map (·.n)).sum := assembleFrom_c_length as off
 
 theorem assembleFrom_l_length (as : List AssetProblem) (off : Nat)
